@@ -421,6 +421,14 @@ def run(ctx, rep):
     from . import C12
     rep.rule('C11.R8', 'the timed semaphore wait reports non-zero only for a kernel timeout confirmed by the clock')
     C12.check_timeout_guards(mod, K, rep, 'C11.R8')
+    # R9: the cv hooks keep CV_NON_EMPTY in step with the queue - a hook that clears it while another waiter is still queued makes the next
+    # signal skip the queue, and that waiter's nsync_wait_n reports a timeout (count) although its object was signalled (rule body of C04.R4)
+    from . import C04
+    rep.rule('C11.R9', 'the cv enqueue/dequeue hooks of nsync_wait_n keep CV_NON_EMPTY in step with the queue')
+    for _r in _eng.records:
+        if _r.kind == 'trans' and _r.pairs and 'waitable' in (_r.entry or ''):
+            C04.check_non_empty_record(K, _eng, _r, _r.site(_eng.wrappers), rep, 'C11.R9')
+    rep.floor('C11.R9', 1)
     rep.floor('C11.R1', 4)
     rep.floor('C11.R2', 2)
     rep.floor('C11.R3', 1)
